@@ -304,7 +304,7 @@ def plan(tier, seed):
     per = {"quick": 1500, "thorough": 12000}[tier]
     specs = [{"mode": "direct", "shard": i, "n": per} for i in range(nd)]
     ni = {"quick": 2, "thorough": 4}[tier]
-    specs += [{"mode": "insitu", "shard": 100 + i, "n": {"quick": 12, "thorough": 60}[tier]} for i in range(ni)]
+    specs += [{"mode": "insitu", "shard": 100 + i, "n": {"quick": 24, "thorough": 120}[tier]} for i in range(ni)]
     return specs
 
 
@@ -380,12 +380,30 @@ def insitu(spec, rec, log, rng):
     from vf.gen.simple import random_decay_scheme
     from glotaran.optimization.optimize import optimize
 
+    from vf.gen import schemes as S
+
+    S.model_class()
     for i in range(spec["n"]):
-        desc, scheme = random_decay_scheme(rng)
+        if i % 2:
+            # harness scheme space of C02: weighted / stacked (linked) / reduced / Kronecker matrices
+            case = S.jsonable_case(S.gen_case(rng))
+            for g in case["groups"]:
+                if any(d.get("global_megacomplex") for d in case["datasets"] if d["group"] == g) and case["groups"][g]["link_clp"]:
+                    case["groups"][g]["link_clp"] = None
+            scheme = S.build_scheme(case, maximum_number_function_evaluations=3)
+            f = case["features"]
+            desc = {"kind": "harness-scheme", "n_comp": len(case["megacomplexes"]["m1"]["labels"]), "irf": False,
+                    "residual_function": "nnls" if f.get("nnls") else "vp", "n_datasets": f.get("n_datasets"), "linked": f.get("link_clp"),
+                    "features": {k: f[k] for k in ("weights", "axes", "full_model", "index_dependent") if k in f}}
+        else:
+            desc, scheme = random_decay_scheme(rng)
         del log[:]
+        from vf.core import CaseTimeout, time_limit
+
         try:
-            optimize(scheme, raise_exception=True)
-        except Exception as e:  # noqa
+            with time_limit(60):
+                optimize(scheme, verbose=False, raise_exception=True)
+        except (Exception, CaseTimeout) as e:  # noqa
             rec.note(f"insitu optimisation raised {type(e).__name__}: {e}")
             rec.skip("insitu optimisation raised")
             continue
@@ -402,7 +420,7 @@ def insitu(spec, rec, log, rng):
                 continue
             report(kind, A, y, x, r, rec, dict(desc, insitu=True), kappa, refs=refs)
             rec.count("insitu_solves_checked")
-        rec.case(("insitu", desc["residual_function"], desc["n_comp"], desc["irf"], desc["linked"]), True, sample=desc,
+        rec.case(("insitu", desc["kind"], desc["residual_function"], desc["n_comp"], desc["irf"], str(desc["linked"])), True, sample=desc,
                  features=[f"insitu|{desc['residual_function']}"])
 
 
